@@ -1,4 +1,6 @@
--- stub: component `lh` not built yet
+import Driver.Lh
+open Driver
+
 def main : IO UInt32 := do
-  IO.eprintln "driver-lh: not implemented"
-  return 2
+  runComponent Lh.init Lh.step
+  return 0
